@@ -12,6 +12,7 @@ impl IPFixField {
 //@ type src/variable_versions/ipfix.rs - FlowSetHeader
 //@ type src/variable_versions/ipfix.rs - TemplateField
 //@ type src/variable_versions/ipfix.rs - Template
+//@ type src/variable_versions/ipfix.rs - OptionsTemplate
 }
 //@ layout ipfix
 verus! {
@@ -191,6 +192,62 @@ pub proof fn thm_c05_single_template_record(b: Seq<u8>)
     ensures tf_greedy(b, 4) == tf_vals(b, 4, be16(b, 2) as int), tf_greedy_end(b, 4) == tf_walk(b, 4, be16(b, 2) as int)->0,
 {
     lemma_walk_is_greedy(b, 4, be16(b, 2) as int);
+}
+
+/// the number of specifiers an options template record announces (field_count includes the scope fields; the
+/// implementation tolerates scope_field_count > field_count by adding them, saturating)
+pub open spec fn opt_combined(fc: u16, sc: u16) -> int {
+    let extra: int = if fc >= sc { fc - sc } else { fc as int };
+    if sc + extra > 65535 { 65535 } else { sc + extra }
+}
+pub open spec fn ipfix_options_template_post<'a>(b: &'a [u8], r: IResult<&'a [u8], OptionsTemplate>) -> bool {
+    &&& (b@.len() < 6 ==> r is Err)
+    &&& (r is Ok ==> {
+        let n = opt_combined(be16(b@, 2), be16(b@, 4));
+        &&& b@.len() >= 6 && tf_walk(b@, 6, n) is Some            // exactly the announced number of specifiers fit ...
+        &&& r->Ok_0.0@.len() == 0
+        &&& r->Ok_0.1.template_id == be16(b@, 0) && r->Ok_0.1.field_count == be16(b@, 2) && r->Ok_0.1.scope_field_count == be16(b@, 4)
+        &&& r->Ok_0.1.fields@ == tf_vals(b@, 6, n)               // ... and are reported as sent
+        &&& r->Ok_0.1.padding@ == b@.subrange(tf_walk(b@, 6, n)->0, b@.len() as int)
+    })
+}
+/// every chain of the field-specifier parser started right after the 6-byte record header walks the specifiers
+spec fn opt_chain_facts<'a>(b: Seq<u8>, i0: &'a [u8]) -> bool {
+    forall|k: int, ins: Seq<&'a [u8]>, vals: Seq<TemplateField>|
+        0 <= k && #[trigger] nom_c::count_ok(TemplateField::parse, k, ins, vals) && ins[0] == i0
+        ==> tf_walk(b, 6, k) is Some && 6 <= tf_walk(b, 6, k)->0 <= b.len()
+            && ins[k]@ == b.subrange(tf_walk(b, 6, k)->0, b.len() as int) && vals == tf_vals(b, 6, k)
+}
+proof fn lemma_opt_chain_all<'a>(b: Seq<u8>, i0: &'a [u8])
+    requires b.len() >= 6, i0@ == b.subrange(6, b.len() as int),
+    ensures opt_chain_facts(b, i0),
+{
+    assert forall|ii: &'a [u8], rr: IResult<&'a [u8], TemplateField>| #[trigger] call_ensures(TemplateField::parse, (ii,), rr) implies ipfix_tf_post(ii, rr) by {}
+    assert forall|k: int, ins: Seq<&'a [u8]>, vals: Seq<TemplateField>|
+        0 <= k && #[trigger] nom_c::count_ok(TemplateField::parse, k, ins, vals) && ins[0] == i0
+        implies tf_walk(b, 6, k) is Some && 6 <= tf_walk(b, 6, k)->0 <= b.len()
+            && ins[k]@ == b.subrange(tf_walk(b, 6, k)->0, b.len() as int) && vals == tf_vals(b, 6, k)
+        by { lemma_tf_many(TemplateField::parse, b, 6, k, ins, vals); }
+}
+
+impl OptionsTemplate {
+//@ fn expanded variable_versions::ipfix /impl<'nom> nom_derive::Parse<.*> for OptionsTemplate/ parse_be
+//@   result: r
+//@   generics: <'nom>
+//@   rules: R7 R11
+//@   before "let i = orig_i;": broadcast use lemma_sub_sub;
+//@   before "let (i, fields) =": proof {
+//@       assert(i@ == orig_i@.subrange(6, orig_i@.len() as int));
+//@       assert(combined_count as int == opt_combined(field_count, scope_field_count));
+//@       lemma_opt_chain_all(orig_i@, i);
+//@   }
+//@   ensures: ipfix_options_template_post(orig_i, r)
+//@ end
+//@ fn expanded variable_versions::ipfix /impl<'nom> nom_derive::Parse<.*> for OptionsTemplate/ parse
+//@   result: r
+//@   generics: <'nom>
+//@   ensures: ipfix_options_template_post(orig_i, r)
+//@ end
 }
 
 impl Template {
